@@ -126,6 +126,11 @@ func (encryptor *HashQuery) OnQuery(ctx context.Context, query mysql.OnQueryObje
 				},
 			}
 
+			// hex string literal X'AB' keeps only the digits as value, hex number literal 0xAB keeps the prefix too:
+			// spell the former as the latter, otherwise the digits themselves would be hashed instead of the bytes they stand for
+			if rVal.Type == sqlparser.HexVal {
+				rVal.Val = append([]byte("0x"), rVal.Val...)
+			}
 			rVal.Type = sqlparser.HexNum
 		}
 
